@@ -576,6 +576,14 @@ func randInterleave(r rng, seqs [][]string, burstPct int) []string {
 	}
 }
 
+// wide picks a value below n, but now and then a much larger one (unusual configurations)
+func wide(r rng, n int, big ...int) int {
+	if len(big) > 0 && r.IntN(12) == 0 {
+		return big[r.IntN(len(big))]
+	}
+	return r.IntN(n)
+}
+
 func rep(m string, n int) []string {
 	out := make([]string, n)
 	for i := range out {
